@@ -150,6 +150,9 @@ structure S where
   sendQueue : List Bytes := []
   triggered : Bool := false
   keyCtr : Nat := 0
+  -- history variables (not part of the code's state; used only to state theorems about the frames sent)
+  sentOps : List Nat := []                          -- opcode of every frame handed to sendData, in order
+  closeSent : List (Option Nat × Option Bytes) := []  -- (code, reason) of every close frame sent
   -- receive side
   data : Bytes := []
   cur : Option Hdr := none
@@ -261,7 +264,7 @@ def sendFrame (s : S) (opcode : Nat) (pl : Bytes) (fin : Bool := true) (rsv : Na
   let (s, key) := if s.masksFrames then ({ s with keyCtr := s.keyCtr + 1 }, some (keyOf s.keyCtr)) else (s, none)
   match encodeFrame fin rsv opcode key s.cfg.applyMask pl with
   | none => s.emit (.raised .exception)
-  | some raw => sendData s raw sync chopsize
+  | some raw => sendData { s with sentOps := s.sentOps ++ [opcode] } raw sync chopsize
 
 def sendPing (s : S) (pl : Bytes) : S :=
   if s.st ≠ .opened then s
@@ -283,7 +286,8 @@ def sendCloseFrame (s : S) (code : Option Nat) (reason : Option Bytes) (isReply 
   | .opened =>
     let payload := (match code with | some c => beBytes 2 c | none => []) ++ (reason.getD [])
     let s := sendFrame s 8 payload
-    let s := { s with st := .closing, closedByMe := !isReply, localCloseCode := code }
+    let s := { s with st := .closing, closedByMe := !isReply, localCloseCode := code,
+                      closeSent := s.closeSent ++ [(code, reason)] }
     if s.closedByMe && s.cfg.closeHsTimeout > 0 then
       let (s, t) := s.timer (batched s.now s.cfg.closeHsTimeout)
       { s with tCloseHs := some t }
@@ -646,7 +650,9 @@ def sendPrepared (s : S) (pl : Bytes) (binary : Bool) : S :=
   let (s, key) := if !s.cfg.isServer then ({ s with keyCtr := s.keyCtr + 1 }, some (keyOf s.keyCtr)) else (s, none)
   match encodeFrame true 0 (if binary then 2 else 1) key true pl with
   | none => s.emit (.raised .exception)
-  | some raw => if s.st ≠ .opened then s.emit (.raised .disconnected) else sendData s raw
+  | some raw =>
+    if s.st ≠ .opened then s.emit (.raised .disconnected)
+    else sendData { s with sentOps := s.sentOps ++ [if binary then 2 else 1] } raw
 
 /-! ## streaming send API -/
 
@@ -668,7 +674,7 @@ def beginMessageFrameCore (s : S) (length : Nat) : Option S :=
     | none => none
     | some (l7, el) =>
       let header := [b0 false 0 op, b1 key.isSome l7] ++ el ++ (match key with | some k => Key.bytes k | none => [])
-      let s := sendData { s with sendSt := .insideMessage } header
+      let s := sendData { s with sendSt := .insideMessage, sentOps := s.sentOps ++ [op] } header
       some { s with sendSt := .insideFrame }
 
 def beginMessageFrame (s : S) (length : Nat) : S :=
@@ -754,7 +760,7 @@ def fire (s : S) : TK → S
 
 /-- advance the virtual clock by `dt` time units, firing due timers in deadline order -/
 def advanceTo (target : Nat) : Nat → S → S
-  | 0, s => { s with now := max s.now target }
+  | 0, s => s   -- out of fuel: the clock is NOT moved (never reached with the fuel `advance` provides)
   | fuel + 1, s =>
     match nextTimer s with
     | some (k, d, _) =>
